@@ -3,6 +3,7 @@
 //  * Stack / Memory: opaque; `Stack::new()`, `Memory::default()` build the empty ones.
 //  * Bytecode + load_bytecode (lib.rs): reads the raw block `cid`; `None` for empty code. A deterministic function of the CID
 //    (content addressing); nothing else is assumed.
+//  * Bytecode::new: "the code made of these bytes" (opaque). System::call_gas_limit: some number (gas is not modelled).
 //  * System::resolve_ethereum_address (system.rs): pure lookup (`&self`); succeeds for every ID address (an ID address resolves to itself
 //    and `lookup_delegated_address` cannot fail); the result is a function of the address (an actor's f4 address never changes).
 //  * execute (interpreter/execution.rs): the interpreter loop. NOT verified. Assumed: (i) its result is RELATED — by the uninterpreted
